@@ -26,13 +26,22 @@ def run(chk):
     res, _ = C.run_cases({"debug": lines}, "C13_valid")
     valid = [p for i, p in enumerate(progs) if res["debug"][f"v{i}"].startswith("ok ")]
     cases = []
+    PRELUDES = ["", "", "say \"one\ntwo\"'s \"x\"\n", "say \"a\nb\nc\"'re \"x\"\n", "(a comment\nover two lines)\nsay 1\n",
+                "say 1 (trailing\ncomment)'s 2\n", "say \"multi\nline\"\n", "X says \"quoted\" (closed)\n"]
     for p in valid:
-        ls = p.split("\n")
+        pre = rng.choice(PRELUDES)
+        npre = pre.count("\n")
+        ls = (pre + p).split("\n")
         for _ in range(2 if quick else 6):
             fault = rng.choice(FAULTS)
             # positions: between statements at top level or inside blocks: any line index; the fault REPLACES
             # nothing, it is inserted as its own line, so the prefix before it is a prefix of a valid program
-            k = rng.randrange(0, len(ls))
+            k = rng.randrange(npre, len(ls))      # never inside a multi-line token of the prelude
+            later = "\n".join(ls[k:])
+            if fault.count('"') % 2 == 1 and '"' in later:
+                continue      # an `unterminated` string would be closed by a later quote: not a fault at this line
+            if "(" in fault and ")" in later:
+                continue
             # do not insert inside a function header/if header gap: any line boundary is fine for the property:
             # lines before k were parsed exactly as in the valid program up to the end of line k-1
             new = ls[:k] + [fault] + ls[k:]
